@@ -316,6 +316,45 @@ R"(
         type);
 }
 
+// escapes characters which cannot appear as is inside C++ string/character
+// literal. `?` is escaped to avoid accidental trigraphs.
+inline std::string escape_literal(const std::string_view str)
+{
+    std::string res;
+    res.reserve(str.size());
+    for(const auto ch : str)
+    {
+        switch(ch)
+        {
+        case '\\':
+            res += "\\\\";
+            break;
+        case '"':
+            res += "\\\"";
+            break;
+        case '\'':
+            res += "\\'";
+            break;
+        case '?':
+            res += "\\?";
+            break;
+        case '\n':
+            res += "\\n";
+            break;
+        case '\r':
+            res += "\\r";
+            break;
+        case '\t':
+            res += "\\t";
+            break;
+        default:
+            res += ch;
+        }
+    }
+
+    return res;
+}
+
 inline std::string make_string_constant(
     const std::string& const_value,
     const length_t type_length,
@@ -327,7 +366,7 @@ inline std::string make_string_constant(
     }
 
     std::string value;
-    value.append("\"").append(const_value);
+    value.append("\"").append(escape_literal(const_value));
     // add padding if necessary
     const auto padding_length = type_length - const_value.size();
     for(std::size_t i = 0; i != padding_length; i++)
@@ -352,7 +391,7 @@ inline std::string make_char_constant(
             constant_value, type_length, location);
     }
 
-    return fmt::format("'{}'", constant_value);
+    return fmt::format("'{}'", escape_literal(constant_value));
 }
 
 inline std::string numeric_literal_to_value(
